@@ -153,8 +153,13 @@ def check(case, ctx):
                             f'[{cfg}] |result-x*|={err:.3e} > {bound:.3e}; got {areal.tolist()} x*={xs.tolist()}', **det)
                 ctx.require(bool(np.all((xs != 0) | (areal == 0))), 'zero-pattern', f'[{cfg}] got {areal.tolist()} x*={xs.tolist()}', **det)
         results[(kind, method, jp, dt)] = a
-        if want_grad and zd.requires_grad:
+        if want_grad:
+            # a result that is not connected to the autograd graph means: every gradient is zero/absent (legitimate only if no
+            # factor can influence the start symbol) -- judged against the reference like any other gradient
+            connected = bool(zd.requires_grad)
+            if kind == 'log' and not bool((zd > -math.inf).any()): return      # log Z = -inf: no derivative to speak of
             try:
+                if not connected: raise StopIteration
                 with warnings.catch_warnings():
                     warnings.simplefilter('ignore')
                     if kind == 'real': f_ = zd.sum()
@@ -163,6 +168,8 @@ def check(case, ctx):
                         if not bool(mask.any()): return
                         f_ = zd[mask].sum()
                     ctx.call('backward', f_.backward)
+            except StopIteration:
+                pass
             except Exception:
                 ctx.violations[-1].detail.update(config=cfg, jp=jp, method=method, sr=kind)
                 return
@@ -174,7 +181,7 @@ def check(case, ctx):
                 gsens[kind] = admit.gradient_sensitivity(fp, start, torch.ones_like(fp['x'][start]), list(spec['terminals']), 4 * B + 1e-13 * scale_all_, log_domain=(kind == 'log'))
             for n, fac in fgg.factors.items():
                 want = grefs[kind][n]
-                g = fac.weights.grad
+                g = fac.weights.grad if connected else None
                 gd = np.zeros_like(want) if g is None else cmp.to_numpy(ctx.call('grad.to_dense', g.to_dense))
                 sel = ~np.isnan(gd)
                 if kind == 'log': sel &= (np.asarray(spec['terminals'][n]['weights'], dtype=float) > 0)
@@ -480,7 +487,15 @@ _SPEC_C = {'node_labels': dict(_N2), 'terminals': {'a': {'type': ['N0', 'N0'], '
 _SPEC_BIG = {'node_labels': {}, 'terminals': {'a': {'type': [], 'weights': 0.9}, 'b': {'type': [], 'weights': 1e8}}, 'nonterminals': {'S': []}, 'start': 'S',
              'rules': [{'lhs': 'S', 'nodes': [], 'ext': [], 'edges': [{'label': 'S', 'att': []}, {'label': 'a', 'att': []}]},
                        {'lhs': 'S', 'nodes': [], 'ext': [], 'edges': [{'label': 'b', 'att': []}]}]}
-FIXED_CASES = [{'kind': 'batch', 'specs': [_SPEC_B, _SPEC_A, _SPEC_C], 'bin': 'all'}, {'kind': 'single', 'spec': _SPEC_BIG}]
+# a two-nonterminal SCC whose base weight is exactly zero: Z = 0 but dZ/db = c / (1 - c d) (regression input of D24: fixed-point
+# iteration must not stop before every nonterminal of the SCC has entered the solution)
+_SPEC_ZERO_BASE = {'node_labels': {}, 'terminals': {'b': {'type': [], 'weights': 0.0}, 'c': {'type': [], 'weights': 0.5}, 'd': {'type': [], 'weights': 0.5}},
+                   'nonterminals': {'X': [], 'Y': []}, 'start': 'X',
+                   'rules': [{'lhs': 'X', 'nodes': [], 'ext': [], 'edges': [{'label': 'Y', 'att': []}, {'label': 'c', 'att': []}]},
+                             {'lhs': 'Y', 'nodes': [], 'ext': [], 'edges': [{'label': 'X', 'att': []}, {'label': 'd', 'att': []}]},
+                             {'lhs': 'Y', 'nodes': [], 'ext': [], 'edges': [{'label': 'b', 'att': []}]}]}
+FIXED_CASES = [{'kind': 'batch', 'specs': [_SPEC_B, _SPEC_A, _SPEC_C], 'bin': 'all'}, {'kind': 'single', 'spec': _SPEC_BIG},
+               {'kind': 'single', 'spec': _SPEC_ZERO_BASE}]
 
 
 def enumerate_cases(tier, shard, nshards):
